@@ -58,7 +58,8 @@ RULE = ('cases: abstract note extents drawn from the seeded PRNG (0..8 notes; na
         'p_align; one file with 2-3 adjacent note sections (also empty ones) under one spanning PT_NOTE, the views walked on the '
         'same ELFFile in drawn orders with repetitions (section first / segment first / shuffled) and in lock step, each '
         'compared with its own extent; note tables and a stab table longer than 64 KiB (one big descriptor crossing the '
-        'boundary, ~2800 small notes, 5500-6000 stab records); stab records with n_type N_UNDF (unit headers, any n_desc) anywhere in the table; each walk is also consumed one yield at a time under a drawn consumer schedule (cyclic list of: seek '
+        'boundary, 40 notes of ~1.7 KB, ~2800 small notes, 5500-6000 stab records; on the two long walks the model is run in the '
+        'thorough tier only, impl vs spec always); stab records with n_type N_UNDF (unit headers, any n_desc) anywhere in the table; each walk is also consumed one yield at a time under a drawn consumer schedule (cyclic list of: seek '
         'to a header / extent / EOF / past-EOF position, data() of .stab/.note/.shstrtab, section header re-read, a '
         'second walk of the other view one note ahead or of the stab table in lock step); stab tables of 0..20 records, and every count 0..5 under sh_entsize 0, 12, 20, 1, 6, 24, 13, the '
         'table size, one more, the maximum; '
@@ -457,13 +458,16 @@ def gen(ctx):
         lay = layout_pick(is64)[:4]
         cases.append(('multi', [c, secs, lay, order]))
     # --- tables longer than 64 KiB (block-wise readers): one big-descriptor table and one many-notes table
-    for j in range(ctx.scale(1, 3)):
+    for j in range(ctx.scale(1, 2)):
         c = cfg_pick()
         def rawnote(dlen):
             nm = _garbage(rng, rng.choice([1, 3, 4, 6]))
             return [nm, _garbage(rng, _pad(4, len(nm) + 1)), 0x4000 + dlen % 7, ['raw', _bytes(rng, dlen)], _garbage(rng, _pad(4, dlen))]
         big = [rawnote(rng.choice([40001, 39998])), rawnote(rng.choice([25531, 25600])), rawnote(5), _gen_note(rng, cfgd(c)), rawnote(0)]
         cases.append(('notes', [c, big, [rng.choice([0, 3]), j % 2 == 1, DEFAULT_SHF, DEFAULT_PHF, [['seek', 0x10000], ['data', '.stab']]]]))
+        c = cfg_pick()
+        mid = [rawnote(rng.choice([1699, 1700, 1701, 1702, 2047])) for _ in range(40)]       # the 64 KiB boundary falls inside a descriptor
+        cases.append(('notes', [c, mid, [rng.choice([0, 1]), False, DEFAULT_SHF, DEFAULT_PHF, [['seek', 0x10000 - 2], ['other']]]]))
         c = cfg_pick()
         many = [rawnote(rng.choice([0, 1, 2, 3, 4, 5, 8, 13])) for _ in range(rng.randint(2700, 2900))]
         cases.append(('notes', [c, many, [rng.choice([0, 1]), False, DEFAULT_SHF, DEFAULT_PHF, [['seek', 0x10000 - 2], ['other']]]]))
@@ -497,7 +501,7 @@ def gen(ctx):
             c = [le, is64, rng.choice(['ET_REL', 'ET_EXEC', 'ET_DYN', 'ET_CORE', 'raw']), rng.choice(list(EM))]
             cases.append(('stabs', [c, [stab_pick() for _ in range(k)], layout_pick(is64, STAB_ENTSIZES)]))
     # a table longer than 64 KiB: more than 5461 records (0x10000 is not a multiple of 12)
-    for j in range(ctx.scale(1, 4)):
+    for j in range(ctx.scale(1, 2)):
         le, is64 = _cfgs()[(j + rng.randint(0, 3)) % 4]
         c = [le, is64, 'ET_REL', rng.choice(list(EM))]
         cases.append(('stabs', [c, [stab_pick() for _ in range(rng.randint(5500, 6000))],
@@ -802,19 +806,29 @@ def evaluate(ctx, cases):
         img = mk_elf(c[0], c[1], ET[c[2]], EM[c[3]], nbytes, sbytes, pre_pad, eof, pl, ph_b, shn_b, shs_b)
         phoff, sh_note, sh_stab = pl['phoff'], pl['shoff'] + pl['shentsize'], pl['shoff'] + (1 + k) * pl['shentsize']
         sched = _sched(a[2])
+        # the extracted model re-walks the image list from its head at every read (lists have no random access):
+        # a walk of n steps over an image of m bytes costs ~10 n m.  On the few long tables (> 64 KiB, thousands
+        # of records) it is run in the thorough tier only, and once per view (under the recorded cursor schedule;
+        # by C14_notes_cursor_free / C14_stabs_cursor_free the walk under any other schedule is the same value).
+        # impl is compared with spec in every tier.
+        heavy = kind in ('notes', 'stabs') and len(a[1]) * len(img) > 30_000_000
+        run_model = not heavy or ctx.tier == 'thorough'
         if kind in ('notes', 'malformed'):
             got = impl_call(_impl_notes, img, sched)
             # (the header names ELFFile reports are expected to be the generator's; if an enum edit in /repo makes
             #  them differ, impl is compared with the spec for the generator's configuration and fails there)
             impl, tells = (got[0], got[2]) if isinstance(got, tuple) else (got, [[], []])
-            w = dict(img=img, impl=impl, sched=sched, shf=shf, phf=phf)
-            reqs += [['section_notes', dcfg(c), img, sh_note, []], ['segment_notes', dcfg(c), img, phoff, []],
-                     ['section_notes', dcfg(c), img, sh_note, tells[0]], ['segment_notes', dcfg(c), img, phoff, tells[1]]]
+            w = dict(img=img, impl=impl, sched=sched, shf=shf, phf=phf, heavy=heavy, run_model=run_model)
+            if not heavy:
+                reqs += [['section_notes', dcfg(c), img, sh_note, []], ['segment_notes', dcfg(c), img, phoff, []]]
+            if run_model:
+                reqs += [['section_notes', dcfg(c), img, sh_note, tells[0]], ['segment_notes', dcfg(c), img, phoff, tells[1]]]
+            nm = (0 if heavy else 2) + (2 if run_model else 0)
             if kind == 'notes':
-                w.update(wf=bool(wf) and wf_h, n=5)
+                w.update(wf=bool(wf) and wf_h, n=nm + 1, nm=nm)
                 reqs.append(['expected', dcfg(c), pl['note_off'], a[1]])
             else:
-                w.update(n=4)
+                w.update(n=nm, nm=nm)
             work.append(w)
         elif kind == 'multi':
             order = list(a[3])
@@ -836,9 +850,13 @@ def evaluate(ctx, cases):
         else:
             got = impl_call(_impl_stabs, img, sched)
             impl, tells = got if isinstance(got, tuple) else (got, [])
-            work.append(dict(img=img, impl=impl, sched=sched, wf=bool(wf) and wf_h, n=3, shf=shf))
-            reqs += [['section_stabs', dcfg(c), img, sh_stab, []], ['section_stabs', dcfg(c), img, sh_stab, tells],
-                     ['expected_stabs', c[0], pl['stab_off'], a[1]]]
+            nm = (0 if heavy else 1) + (1 if run_model else 0)
+            work.append(dict(img=img, impl=impl, sched=sched, wf=bool(wf) and wf_h, n=nm + 1, nm=nm, shf=shf, heavy=heavy, run_model=run_model))
+            if not heavy:
+                reqs.append(['section_stabs', dcfg(c), img, sh_stab, []])
+            if run_model:
+                reqs.append(['section_stabs', dcfg(c), img, sh_stab, tells])
+            reqs.append(['expected_stabs', c[0], pl['stab_off'], a[1]])
     ans2 = drv.batch(reqs)
     pos = 0
     for (kind, a), w in zip(cases, work):
@@ -862,8 +880,10 @@ def evaluate(ctx, cases):
             c, notes = a[0], a[1]
             eof = a[2][1]
             impl = w['impl']
-            model = [ok(x) for x in r[:4]]
-            spec = [r[4]] * 4
+            m = [ok(x) for x in r[:w['nm']]]
+            model = m if not w['heavy'] else (m + m if w['run_model'] else None)
+            spec = [r[w['nm']]] * 4
+            ctx.bump('model_run', 'yes' if model is not None else 'no (long table, quick tier)')
             ctx.bump('extent_size', '>64KiB' if len(w['img']) > 0x10000 else '<=64KiB')
             ctx.bump('notes_per_extent', len(notes) if len(notes) < 6 else '6+')
             ctx.bump('cfg', '%s%d%s' % ('LE' if c[0] else 'BE', 64 if c[1] else 32, '-core' if c[2] == 'ET_CORE' else ''))
@@ -897,8 +917,10 @@ def evaluate(ctx, cases):
             ctx.record(kind, a, impl=impl, spec=model, model=model, in_domain=False, nontrivial=True, key='malformed')
         elif kind == 'stabs':
             impl = w['impl']
-            model = [ok(r[0]), ok(r[1])]
-            spec = [r[2], r[2]]
+            m = [ok(x) for x in r[:w['nm']]]
+            model = m if not w['heavy'] else (m + m if w['run_model'] else None)
+            spec = [r[w['nm']]] * 2
+            ctx.bump('model_run', 'yes' if model is not None else 'no (long table, quick tier)')
             key = 'stabs'
             if isinstance(impl, list) and len(impl) == 2 and sx_canon(impl[0]) == sx_canon(spec[0]) and sx_canon(impl) != sx_canon(spec):
                 key = 'stabs-interleaved'
